@@ -17,6 +17,7 @@ from common import Check, Driver, Infra, VERIF, sarpy_guard
 import segtree
 import c01complete
 import segmodel
+import nitfasm
 
 sys.path.insert(0, os.path.join(VERIF, 'translate'))
 
@@ -625,9 +626,11 @@ def run(tier):
     gen_info = gen_slices.generate(os.path.join(VERIF, 'lean', 'SarpyModel', 'Gen', 'Slices.lean'))
     if gen_info['unsupported']:
         gen_info['note'] = 'translator could not express: ' + json.dumps(gen_info['unsupported'])
-    broken = chk.prove(['SarpyModel.Props.C01', 'SarpyModel.Props.C01Nd', 'SarpyModel.Props.C01Complete', segmodel.SEG_MODULE, 'SarpyModel.Drivers'], 'SarpyModel.Props.C01Complete', 'Sarpy.Props.C01', REQUIRED, gen_info)
+    nitfasm.regenerate(chk)          # Gen/NitfOrient.lean: the NITF reader's orientation tables, from the current source
+    broken = chk.prove(['SarpyModel.Props.C01', 'SarpyModel.Props.C01Nd', 'SarpyModel.Props.C01Complete', segmodel.SEG_MODULE, nitfasm.NITF_MODULE, 'SarpyModel.Drivers'], 'SarpyModel.Props.C01Complete', 'Sarpy.Props.C01', REQUIRED, gen_info)
     if not broken:
         segmodel.obligations_reads(chk, broken)      # Props/C01Seg.lean: segment trees as index maps, read = select(full)
+        nitfasm.obligations(chk, broken)             # Props/C01Nitf.lean: how the NITF reader builds those trees from subheader fields
 
     # ---- correspondence: kernels three-way (python / Gen / Spec) and numpy-spec validation
     disagreements = []
@@ -644,6 +647,7 @@ def run(tier):
         ccs = c01complete.supported_oracle_cases(rng, tier)
         ccq = c01complete.enqueue(drv, ccs)
         seg_plan = segmodel.plan_reads(drv, rng, tier)
+        nitf_plan = nitfasm.plan(drv, rng, tier)
         ans = drv.run()
     except Infra as e:
         drv_ok = False
@@ -754,6 +758,11 @@ def run(tier):
                 subs = ([['tuple'] + [list(x) for x in dsg['sub']]] if dsg.get('sub') else [None]) + \
                     [rand_subscript(rng, shape) for _ in range(20)]
                 check_tree(dsg['tree'], subs, tmpdir, fails, stats)
+        nitf_dis, nitf_fails, nitf_stats = nitfasm.check(nitf_plan if drv_ok else nitfasm.plan(None, rng, tier), ans, tmpdir)
+        disagreements += nitf_dis
+        fails += nitf_fails
+        evaluations += nitf_stats.get('reads', 0)
+        chk.coverage['nitf_assembly'] = nitf_stats
         if tier == 'thorough':
             exhaustive_small(fails, stats, tmpdir)
     finally:
@@ -790,7 +799,7 @@ def run(tier):
         'tied by value with a tolerance; raw-basis subsets over subsets / complex / LUT parents are tied by the numpy oracle only; block '
         'definitions of step -1 and 2-d lookup tables are modelled as the repaired code serves them (patches F1, F5 of NOTES_SEGFIX)',
         'JPEG/JPEG2000/HDF5 segments outside the model',
-    ]
+    ] + nitfasm.ASSUMPTIONS
 
     # ---- decide
     all_fail = oracle_fail + fails
@@ -851,6 +860,8 @@ def replay(path):
         m = c01complete.replay_case(case['case'])
         print('completeness oracle:', m)
         return 1 if m else 0
+    if case['kind'] == 'nitf':
+        return nitfasm.replay_case(case)
     if case['kind'] == 'kernel':
         m = kernel_oracle(tuple(tuple(x) if isinstance(x, list) else x for x in case['case']))
         print('kernel oracle:', m)
